@@ -86,7 +86,7 @@ func (m *TrieStore) Seek(rng storage.SeekRange, f func(k, v []byte) bool) {
 			fromP = []byte{}
 		} else {
 			cmp := bytes.Compare(path, fromP)
-			if cmp < 0 == rng.Backwards {
+			if (cmp < 0) != rng.Backwards {
 				// No matching items.
 				return
 			}
